@@ -148,7 +148,10 @@ func genC02(seed int64, tier string) *Scenario {
 		case k == 20: // the file of the open document is deleted on disk; the editor keeps the buffer
 			sc.Ops = append(sc.Ops, Op{Kind: "fsremove", Path: d}, Op{Kind: "deliver"})
 		case k == 21: // a settings change rebuilds the server's project while documents are open
-			cfg := fmt.Sprintf(`{"luahelper":{"base":{"ReferenceMaxNum":%d},"Warn":{"AllEnable":true,"CheckSyntax":true,"CheckNoDefine":%v}}}`, 10+r.Intn(100), r.Intn(2) == 0)
+			// sometimes the new settings exclude an open document from analysis, a later change
+			// includes it again: the editor still has it open and keeps sending edits
+			ign := []string{"", "", `"a.lua"`, `"sub/"`, `"a.lua","sub/b.lua"`, `"nomatch/"`}[r.Intn(6)]
+			cfg := fmt.Sprintf(`{"luahelper":{"base":{"ReferenceMaxNum":%d,"IgnoreFileOrDir":[%s]},"Warn":{"AllEnable":true,"CheckSyntax":true,"CheckNoDefine":%v}}}`, 10+r.Intn(100), ign, r.Intn(2) == 0)
 			sc.Ops = append(sc.Ops, Op{Kind: "config", Params: json.RawMessage(cfg)})
 		case k == 22: // save under a name that the disk does not have yet / any more
 			sc.Ops = append(sc.Ops, Op{Kind: "save", Path: d})
